@@ -2,6 +2,12 @@
 
 package executor
 
+import (
+	"time"
+
+	utilsio "github.com/alpacahq/marketstore/v4/utils/io"
+)
+
 // Contracts for package executor, checked by /verif/govc. Compiled only with -tags=verif.
 
 func verifAssert(bool) {}
@@ -74,3 +80,69 @@ func verifAssume(bool) {}
 //@ exit #afterEnd: (len(src)/rowLength != 0 && result != nil) ==> forall(k, i, nrecords, rowT(mem(result), rowAt(base(result), k, rowLength), rowLength) > abs(dr.End))
 //@ exit #lastLeEnd: (len(src)/rowLength != 0 && len(result) > 0) ==> rowT(mem(result), rowAt(base(result), i-1, rowLength), rowLength) <= abs(dr.End)
 //@ ensures #resultInSrc: len(src)/(rowlen+8) == 0 || result == nil || (base(src) <= base(result) && base(result)+len(result) <= base(src)+len(src))
+
+// ---------------------------------------------------------------------------------------------
+// C10: sub-interval tick codec (IEEE-754 binary64 modelled as reals with relative rounding error 2^-53 per
+// operation and exact results for integers below 2^53; option floatmodel)
+
+//@ func math.Floor
+//@ trusted "stdlib: exact floor of a finite double"
+//@ pure
+//@ ensures result == real(floor(x))
+
+
+//@ func GetTimeFromTicks
+//@ props C10 C09
+//@ option floatmodel
+//@ option floatconv-check
+//@ option instantiate intervalsPerDay: 86400,8640,2880,1440,288,96,48,24,12,6,1
+//@ requires #ipd: tableIPD(intervalsPerDay)
+//@ requires #start: intervalStart <= 4611686018427387904
+// stepping stones (proved in order, each may use the ones before it)
+//@ exit #h1: fractionalSeconds >= real(intervalTicks)*86400.0/(real(intervalsPerDay)*4294967296.0) - 0.0000000001 && fractionalSeconds <= real(intervalTicks)*86400.0/(real(intervalsPerDay)*4294967296.0) + 0.0000000001
+//@ exit #h2: subseconds >= 1000000000.0*(fractionalSeconds - real(floor(fractionalSeconds))) - 0.001 && subseconds <= 1000000000.0*(fractionalSeconds - real(floor(fractionalSeconds))) + 0.001
+//@ exit #h3: real(nanosec) + 1000000000.0*wholeSeconds >= 1000000000.0*fractionalSeconds - 0.51 && real(nanosec) + 1000000000.0*wholeSeconds <= 1000000000.0*fractionalSeconds + 0.51
+//@ exit #h4: real(sec - intervalStart) == wholeSeconds
+//@ ensures #nanosRange: nanosec < 1000000000
+//@ ensures #decodeLo: real(sec - intervalStart)*1000000000.0 + real(nanosec) >= real(intervalTicks)*86400000000000.0/(real(intervalsPerDay)*4294967296.0) - 0.62
+//@ ensures #decodeHi: real(sec - intervalStart)*1000000000.0 + real(nanosec) <= real(intervalTicks)*86400000000000.0/(real(intervalsPerDay)*4294967296.0) + 0.62
+
+// Round trip of the sub-interval timestamp: encode the offset of ts inside its interval as ticks (writer), decode the
+// ticks (reader). The decoded time is in the same interval, never later than ts, and earlier by less than one
+// resolution step (interval/2^32, plus the 1 ns grid of the output); for 1-second intervals it is exact.
+func lemmaTickRoundTrip(ts time.Time, index, intervalsPerDay int64, intervalStart uint64) {
+	base := utilsio.IndexToTimeDepr(index, intervalsPerDay, int16(ts.Year()))
+	off := int64(ts.Sub(base))
+	ticks := utilsio.GetIntervalTicks32Bit(ts, index, intervalsPerDay)
+	sec, ns := GetTimeFromTicks(intervalStart, uint32(intervalsPerDay), ticks)
+	decoded := int64(sec-intervalStart)*1000000000 + int64(ns)
+	verifAssert(decoded <= off)                                        // #notLater
+	verifAssert(decoded >= 0)                                          // #sameIntervalLow
+	verifAssert(decoded < 86400000000000/intervalsPerDay)              // #sameIntervalHigh
+	verifAssert((off-decoded)*4294967296 < 86400000000000/intervalsPerDay+4294967296) // #withinOneStep
+	if intervalsPerDay == 86400 {
+		verifAssert(decoded == off) // #exactForOneSecond
+	}
+}
+
+//@ lemma lemmaTickRoundTrip
+//@ props C10 C09
+//@ option instantiate intervalsPerDay: 86400,8640,2880,1440,288,96,48,24,12,6,1
+//@ requires #index: 1 <= index && index <= 366*intervalsPerDay
+//@ requires #start: intervalStart <= 4611686018427387904
+//@ requires #year: 1 <= civilYear(abs(ts), loc(ts)) && civilYear(abs(ts), loc(ts)) <= 32767
+//@ requires #inInterval: 0 <= abs(ts) - (civilYearStart(civilYear(abs(ts), loc(ts)), time.UTC) + ((index-1)*86400/intervalsPerDay)*1000000000) && abs(ts) - (civilYearStart(civilYear(abs(ts), loc(ts)), time.UTC) + ((index-1)*86400/intervalsPerDay)*1000000000) < 86400000000000/intervalsPerDay
+
+// Order preservation: a later offset never gets fewer ticks, and more ticks never decode earlier.
+func lemmaTickMonotone(intervalStart uint64, intervalsPerDay uint32, t1, t2 uint32) {
+	s1, n1 := GetTimeFromTicks(intervalStart, intervalsPerDay, t1)
+	s2, n2 := GetTimeFromTicks(intervalStart, intervalsPerDay, t2)
+	if t1 <= t2 {
+		verifAssert(int64(s1-intervalStart)*1000000000+int64(n1) <= int64(s2-intervalStart)*1000000000+int64(n2)+1) // #decodeMonotoneUpToGrid
+	}
+}
+
+//@ lemma lemmaTickMonotone
+//@ props C10 C09
+//@ option instantiate intervalsPerDay: 86400,8640,2880,1440,288,96,48,24,12,6,1
+//@ requires #start: intervalStart <= 4611686018427387904
